@@ -23,9 +23,12 @@ Record c05case := mkC05 {
   k_impl : obs;                        (* what flux_variability_analysis returned *)
   k_index_ok : bool;                   (* frame index = requested ids in request order, columns minimum, maximum *)
   k_optima : list vec;                 (* optimal FBA flux vectors (the implementation's own, the oracle's) *)
-  k_loopless : option (obs * list (option (Q * Q)))
-                                       (* loopless=True on the same arguments: returned table; exact loop-free
-                                          ranges by sign-pattern enumeration (None: loop-free scope empty) *)
+  k_loopless : option (obs * list (option (Q * Q) * (bool * bool)))
+                                       (* loopless=True on the same arguments: returned table; per requested reaction the
+                                          exact loop-free range by sign-pattern enumeration (None: loop-free scope empty)
+                                          and two flags computed by the harness from the network structure (docs/C05.md,
+                                          "where the heuristic is exact"): the unchanged loopless_fva_iter provably
+                                          cannot be wider / cannot be narrower than the exact range for this reaction *)
 }.
 
 Definition tol : Q := 1 # 1000000.
@@ -83,19 +86,28 @@ Fixpoint inside (ll im : list (Q * Q)) : bool :=
   end.
 
 (* against the exact loop-free range (lo, hi): a reported loopless range may be WIDER (it contains values
-   only attained by distributions with an internal cycle: code 7) or NARROWER (it misses loop-free
-   distributions: code 12)                                                                        *)
-Fixpoint ll_wider (ll : list (Q * Q)) (ex : list (option (Q * Q))) : bool :=
+   only attained by distributions with an internal cycle) or NARROWER (it misses loop-free distributions).
+   `strict` selects the reactions whose flag says the unchanged heuristic cannot deviate that way. *)
+Definition wider1 (r : Q * Q) (e : option (Q * Q)) : bool :=
+  match e with Some (lo, hi) => negb (le_tol lo (fst r)) || negb (le_tol (snd r) hi) | None => false end.
+Definition narrower1 (r : Q * Q) (e : option (Q * Q)) : bool :=
+  match e with Some (lo, hi) => negb (le_tol (fst r) lo) || negb (le_tol hi (snd r)) | None => false end.
+Fixpoint ll_dev (f : (Q * Q) -> option (Q * Q) -> bool) (pick : bool * bool -> bool) (strict : bool)
+                (ll : list (Q * Q)) (ex : list (option (Q * Q) * (bool * bool))) : bool :=
   match ll, ex with
-  | (a, b) :: ll', e :: ex' =>
-      match e with Some (lo, hi) => negb (le_tol lo a) || negb (le_tol b hi) | None => false end || ll_wider ll' ex'
+  | r :: ll', (e, fl) :: ex' => (f r e && Bool.eqb (pick fl) strict) || ll_dev f pick strict ll' ex'
   | _, _ => false
   end.
-Fixpoint ll_narrower (ll : list (Q * Q)) (ex : list (option (Q * Q))) : bool :=
-  match ll, ex with
-  | (a, b) :: ll', e :: ex' =>
-      match e with Some (lo, hi) => negb (le_tol a lo) || negb (le_tol hi b) | None => false end || ll_narrower ll' ex'
-  | _, _ => false
+(* codes: 13 / 14 = wider / narrower where the unchanged heuristic is provably exact on that side (never a known
+   finding); 7 / 12 = wider / narrower elsewhere, reported only when no 13 / 14 is present so that shrinking a
+   strict deviation cannot drift into a case that only shows the known inexactness                       *)
+Definition ll_codes (ll : list (Q * Q)) (ex : list (option (Q * Q) * (bool * bool))) : list nat :=
+  let s := (if ll_dev wider1 fst true ll ex then [13%nat] else []) ++
+           (if ll_dev narrower1 snd true ll ex then [14%nat] else []) in
+  match s with
+  | [] => (if ll_dev wider1 fst false ll ex then [7%nat] else []) ++
+          (if ll_dev narrower1 snd false ll ex then [12%nat] else [])
+  | _ => s
   end.
 
 Definition checks (c : c05case) : list nat :=
@@ -139,7 +151,7 @@ Definition checks (c : c05case) : list nat :=
                | Some (OTable ll, exl) =>
                    (if inside ll im then [] else [6%nat]) ++
                    (if Nat.eqb (length ll) (length exl) then [] else [11%nat]) ++
-                   (if ll_wider ll exl then [7%nat] else []) ++ (if ll_narrower ll exl then [12%nat] else [])
+                   ll_codes ll exl
                | Some (_, _) => [11%nat]
                end)
           | _, _ => [1%nat]
